@@ -1,6 +1,9 @@
 package checkers
 
-import "regexp"
+import (
+	"regexp"
+	"strings"
+)
 
 var errClassRe = regexp.MustCompile(`(?m)^[^\s:]+\.go:\d+:\d+: (.*)$`)
 
@@ -11,6 +14,9 @@ func BuildErrClass(out string) string {
 		return "unknown"
 	}
 	s := m[1]
+	if strings.Contains(s, "cannot find module providing package") || strings.Contains(s, "no required module provides package") {
+		return "unresolved-import"
+	}
 	s = regexp.MustCompile(`\b[A-Za-z_][A-Za-z0-9_]*\.[A-Za-z_][A-Za-z0-9_.]*`).ReplaceAllString(s, "X")
 	s = regexp.MustCompile(`\b[A-Z][A-Za-z0-9_]*\b`).ReplaceAllString(s, "T")
 	if len(s) > 60 {
